@@ -19,6 +19,7 @@ import (
 	"os"
 	"os/exec"
 	"path/filepath"
+	"strings"
 	"syscall"
 	"time"
 
@@ -83,6 +84,20 @@ func main() {
 	build.Dir = harness
 	build.Env = env
 	out, err := build.CombinedOutput()
+	if err != nil && strings.Contains(string(out), "undefined: core.Verif") {
+		// the go tool did not see the overlaid file (observed once under heavy parallel load): retry once with
+		// the generated file under a fresh name before declaring the correspondence broken
+		os.Stderr.WriteString("c20: overlay not picked up by the go tool, retrying once\n" + string(out))
+		gen2 := filepath.Join(tmp, fmt.Sprintf("verif_c20_sliced_gen_%d.go", os.Getpid()))
+		os.WriteFile(gen2, []byte(res.GoFile), 0o644)
+		defer os.Remove(gen2)
+		ov2, _ := json.Marshal(map[string]any{"Replace": map[string]string{target: gen2}})
+		os.WriteFile(ovPath, ov2, 0o644)
+		build = exec.CommandContext(ctx, "go", "build", "-tags", "verif c20inner", "-overlay", ovPath, "-o", inner, "./cmd/c20/inner")
+		build.Dir = harness
+		build.Env = env
+		out, err = build.CombinedOutput()
+	}
 	if err != nil {
 		os.Stderr.Write(out)
 		fail("the sliced text of (*Slice).Append lines %d-%d (free variables %v) does not build as core.VerifRepriceConversions: %v", res.StartLine, res.EndLine, res.FreeVars, err)
